@@ -6,6 +6,7 @@ package argmapper
 import (
 	"fmt"
 	"reflect"
+	"strconv"
 	"strings"
 
 	"github.com/hashicorp/go-argmapper/internal/graph"
@@ -213,9 +214,12 @@ func (f *Func) redefineInputs(opts ...Arg) (reflect.Type, error) {
 			}
 			fieldNames[name] = struct{}{}
 
+			// The name travels in the tag so that it does not have to be
+			// a Go identifier (reflect.StructOf panics on other field names).
 			sf = append(sf, reflect.StructField{
-				Name: name,
+				Name: fmt.Sprintf("V__Name_%d", len(sf)),
 				Type: v.Type,
+				Tag:  reflect.StructTag("argmapper:" + strconv.Quote(v.Name)),
 			})
 
 		case *typedArgVertex:
